@@ -17,3 +17,6 @@ package state
 //@   trusted
 //@   ensures supply == old(supply) - old(big(amount))
 //@   assigns supply
+
+//@ func StateDB.Commit
+//@   keeps big
